@@ -807,7 +807,12 @@ func DrawSrc(t *rapid.T, format string, maxData int, origins ...string) Src {
 			}
 			s.Sizes = rapid.IntRange(0, 3).Draw(t, "sizes")
 			s.Mix = s.NBlocks >= 2 && rapid.IntRange(0, 2).Draw(t, "mixblocks") == 0
-			s.ExtraPad = rapid.SampledFrom([]int{0, 0, 1, 3}).Draw(t, "extrapad")
+			// header padding up to the largest header the size byte can
+			// state (0xFF: 1024 bytes = 12 + 4*253)
+			s.ExtraPad = rapid.SampledFrom([]int{0, 0, 0, 1, 3, 3, 126, 252, 253}).Draw(t, "extrapad")
+			if s.ExtraPad > 250 && s.Sizes != 0 {
+				s.ExtraPad = 250 // room for two size fields of any length
+			}
 		case "lzma2":
 			s.NChunks = rapid.IntRange(0, 6).Draw(t, "nchunks")
 			s.DictCode = byte(rapid.SampledFrom([]int{0, 0, 1, 2, 5, 8}).Draw(t, "dictcode"))
